@@ -294,6 +294,8 @@ func TestC15(t *testing.T) {
 	queuedNames(c)
 	afterUndecodable(c)
 	hookStamped(c)
+	blankNames(c)
+	routedThenTyped(c)
 	run.Sample(map[string]any{"shape": "*state.ChangeMessage", "event_type_name": ebu.EventType(&state.ChangeMessage{}), "go_type": "*state.ChangeMessage", "apis": []string{"persist-name", "replay-eventtype-compare", "subscribe-replay-phase", "subscribe-live-phase", "upcast-as-source", "upcast-as-target", "upcast-target-into-subscription"}})
 	run.Exhaustive(true)
 	_ = json.Valid
@@ -424,6 +426,89 @@ func hookStamped(c *caseCtx) {
 		if evs[0].Type != ebu.EventType(&back) {
 			c.run.Violation("typename:persist-name:hook-completed-event", fmt.Sprintf("an event completed by a before-publish hook was stored as %s under the name %q; EventType reports %q for that event", evs[0].Data, evs[0].Type, ebu.EventType(&back)), nil)
 		}
+	}
+}
+
+type envelope[T any] struct {
+	ID   int
+	Body T
+}
+type envelopeV2 struct {
+	ID   int
+	Kind string
+}
+
+// blankNames: Go's own names for some perfectly ordinary event types contain blanks and punctuation
+// ("map[string]interface {}", "c15.envelope[interface {}]"). They are persisted under those names,
+// so typed upcast registrations and typed replay subscriptions have to accept and use them too.
+func blankNames(c *caseCtx) {
+	ctx := context.Background()
+	bus := ebu.New(ebu.WithStore(ebu.NewMemoryStore()), ebu.WithSubscriptionStore(ebu.NewMemoryStore()))
+	ebu.Publish(bus, envelope[any]{ID: 1, Body: "text"})
+	ebu.Publish(bus, map[string]any{"ID": 2.0})
+	ebu.Publish(bus, envelope[any]{ID: 3, Body: nil})
+	err1 := ebu.RegisterUpcast(bus, func(e envelope[any]) envelopeV2 { return envelopeV2{ID: e.ID, Kind: "envelope"} })
+	err2 := ebu.RegisterUpcast(bus, func(m map[string]any) envelopeV2 {
+		id, _ := m["ID"].(float64)
+		return envelopeV2{ID: int(id), Kind: "map"}
+	})
+	var got []string
+	err3 := ebu.SubscribeWithReplay(ctx, bus, "blank-names", func(v envelopeV2) { got = append(got, fmt.Sprintf("%d:%s", v.ID, v.Kind)) })
+	var same []int
+	err4 := ebu.SubscribeWithReplay(ctx, bus, "blank-names-same-type", func(v envelope[any]) { same = append(same, v.ID) })
+	c.run.Case("type names with blanks|typed upcast and replay subscription", true)
+	if err1 != nil || err2 != nil || err3 != nil || fmt.Sprint(got) != "[1:envelope 2:map 3:envelope]" {
+		c.run.Violation("typename:names-with-blanks", fmt.Sprintf("events persisted as %q and %q: RegisterUpcast returned %v / %v, SubscribeWithReplay of the target %v and received %v (want [1:envelope 2:map 3:envelope])", ebu.EventType(envelope[any]{}), ebu.EventType(map[string]any{}), err1, err2, err3, got), nil)
+	}
+	if err4 != nil || len(same) != 0 {
+		// every stored envelope is upcast before it is matched: none is left for its own type
+		c.run.Violation("typename:names-with-blanks", fmt.Sprintf("SubscribeWithReplay[%s] after the upcaster was registered returned %v and received %v (the stored envelopes are all upcast)", ebu.EventType(envelope[any]{}), err4, same), nil)
+	}
+}
+
+type placedV1 struct{ ID int }
+type cancelledV1 struct{ ID int }
+type placedV2 struct {
+	ID int
+	V  int
+}
+type cancelledV2 struct {
+	ID int
+	V  int
+}
+
+// routedThenTyped: a raw upcaster converts one legacy stored name into events of two Go types (it
+// names the type each event now carries); the typed upcasters registered for those two types are
+// matched by that name, and so are the typed replay subscriptions of their targets.
+func routedThenTyped(c *caseCtx) {
+	ctx := context.Background()
+	store := ebu.NewMemoryStore()
+	for i, k := range []string{"placed", "cancelled", "cancelled", "placed"} {
+		store.Append(ctx, &ebu.Event{Type: "c15.legacy-order-event", Data: json.RawMessage(fmt.Sprintf(`{"kind":%q,"ID":%d}`, k, i+1)), Timestamp: time.Unix(1, 0)})
+	}
+	bus := ebu.New(ebu.WithStore(store), ebu.WithSubscriptionStore(ebu.NewMemoryStore()))
+	ebu.RegisterUpcastFunc(bus, "c15.legacy-order-event", ebu.EventType(placedV1{}), func(d json.RawMessage) (json.RawMessage, string, error) {
+		var l struct {
+			Kind string `json:"kind"`
+			ID   int
+		}
+		json.Unmarshal(d, &l)
+		if l.Kind == "cancelled" {
+			out, _ := json.Marshal(cancelledV1{ID: l.ID})
+			return out, ebu.EventType(cancelledV1{}), nil
+		}
+		out, _ := json.Marshal(placedV1{ID: l.ID})
+		return out, ebu.EventType(placedV1{}), nil
+	})
+	ebu.RegisterUpcast(bus, func(p placedV1) placedV2 { return placedV2{ID: p.ID, V: 2} })
+	ebu.RegisterUpcast(bus, func(p cancelledV1) cancelledV2 { return cancelledV2{ID: p.ID, V: 2} })
+	ebu.Publish(bus, cancelledV1{ID: 5}) // one persisted directly under its own name
+	var placed, cancelled []int
+	e1 := ebu.SubscribeWithReplay(ctx, bus, "routed-placed", func(v placedV2) { placed = append(placed, v.ID) })
+	e2 := ebu.SubscribeWithReplay(ctx, bus, "routed-cancelled", func(v cancelledV2) { cancelled = append(cancelled, v.ID) })
+	c.run.Case("typed upcasters behind a routing raw upcaster", true)
+	if e1 != nil || e2 != nil || fmt.Sprint(placed) != "[1 4]" || fmt.Sprint(cancelled) != "[2 3 5]" {
+		c.run.Violation("typename:typed-upcast-after-routing-upcaster", fmt.Sprintf("legacy records routed by a raw upcaster to %q / %q, typed upcasters registered for both: the subscription of the placed target received %v (err %v, want [1 4]), that of the cancelled target %v (err %v, want [2 3 5])", ebu.EventType(placedV1{}), ebu.EventType(cancelledV1{}), placed, e1, cancelled, e2), nil)
 	}
 }
 
